@@ -76,6 +76,8 @@ fn main() {
         let inner = case.get("case").cloned().unwrap_or(case);
         let still = match inner.get("part").and_then(|p| p.as_str()) {
             Some("A") => part_a::replay(&inner),
+            Some("A2") => part_a::replay_history(&inner),
+            Some("B2") => part_b::replay_sequence(&inner),
             Some("B") => part_b::replay(&inner),
             _ => verif_common::machinery_error("replay file has no `part` member"),
         };
@@ -95,15 +97,35 @@ fn main() {
         .unwrap_or_else(|| std::thread::available_parallelism().map(|n| n.get()).unwrap_or(4).min(16));
     let only = args.extra("part").map(|s| s.to_string());
 
+    // the history dimension runs first: if calls on one thread influence each other, Part A's per-case determinism
+    // check must not mistake that for a fault of the harness
+    let th = std::time::Instant::now();
+    let hsty = if only.as_deref() != Some("B") { part_a::run_histories(if matches!(args.tier, verif_common::Tier::Quick) { 2 } else { ba.max_n }, threads) } else { part_a::AccH::default() };
+    let wall_h = th.elapsed().as_secs_f64();
+    if !hsty.violations.is_empty() {
+        part_a::HISTORY_DEPENDENCE_KNOWN.store(true, std::sync::atomic::Ordering::SeqCst);
+    }
     let t0 = std::time::Instant::now();
     let a = if only.as_deref() != Some("B") { part_a::run(&ba, args.seed, threads) } else { part_a::Acc::default() };
     let wall_a = t0.elapsed().as_secs_f64();
+    let tb2 = std::time::Instant::now();
+    let b2 = if only.as_deref() != Some("A") { part_b::run_sequences(&bb, threads.min(8), matches!(args.tier, verif_common::Tier::Quick)) } else { part_b::AccB2::default() };
+    let wall_b2 = tb2.elapsed().as_secs_f64();
+    if !b2.violations.is_empty() {
+        part_a::HISTORY_DEPENDENCE_KNOWN.store(true, std::sync::atomic::Ordering::SeqCst);
+    }
     let t1 = std::time::Instant::now();
     let b = if only.as_deref() != Some("A") { part_b::run(&bb, args.seed, threads.min(8)) } else { part_b::AccB::default() };
     let wall_b = t1.elapsed().as_secs_f64();
 
     for (key, (_, what, case)) in &a.violations {
         rep.violation(key, what, case.clone());
+    }
+    for (key, (_, what, case)) in &hsty.violations {
+        rep.violation(key, what, case.clone());
+    }
+    for (key, (_, what, case)) in &b2.violations {
+        rep.violation(&format!("loopback:{key}"), what, case.clone());
     }
     for (key, (_, what, case)) in &b.violations {
         rep.violation(key, what, case.clone());
@@ -152,7 +174,8 @@ dup[L,L], dup[L,N+1], dup[N+1,L], dup[abc,N+1]}} de-duplicated by value; full ca
 Part B (loopback, real pavex::server::Server, handler calls public BufferedBody::extract + JsonBody/UrlEncodedBody::extract): \
 limit in 0..={} (BodySizeLimit::Enabled) and off (Disabled, L in 0..={}), L in 0..=N+2, every composition of the body into non-empty \
 HTTP/1.1 chunks (Transfer-Encoding: chunked) with/without trailer section x Content-Length in {{absent, before-TE: L, L-1, L+1, N, N+1, \
-abc, 2^64, dup[L,N+1]; after-TE: N+1}}, plus plain Content-Length framing with every split of the body into TCP writes; write modes {:?}. \
+abc, 2^64, dup[L,N+1]; after-TE: N+1}}, plus plain Content-Length framing with every split of the body into TCP writes; write modes {:?}; \
+plus HTTP/2 with prior knowledge (hyper client): every composition of the body into DATA frames x content-length {{absent, announced}}. \
 Oracle (reference model in model.rs::judge): Ok(b) => b.len() <= N and b == bytes sent; well-formed body with L > N => Err(SizeLimitExceeded) \
 (never Ok, never UnexpectedBufferError); well-formed body with L <= N and Content-Length absent or truthful => Ok; well-formed body never \
 yields UnexpectedBufferError; a lying/garbage header may be rejected with SizeLimitExceeded or accepted with the exact bytes; a panic is a \
@@ -171,7 +194,7 @@ Content-Length header); distinctness holds by construction (each tuple of the pr
     );
 
     let coverage = json!({
-        "evaluations": a.evaluations + b.evaluations,
+        "evaluations": a.evaluations + b.evaluations + hsty.pairs + b2.pairs,
         "distinct_nontrivial": a.nontrivial + b.nontrivial,
         "rule": rule,
         "samples": samples,
@@ -184,6 +207,7 @@ Content-Length header); distinctness holds by construction (each tuple of the pr
             "multi_frame_cases": a.multi_frame,
             "cases_with_pending": a.with_pending,
             "violating_cases": a.violating_cases,
+            "history_dependent_verdicts_not_attributed": a.history_dependent_unattributed,
             "extractor_checks_on_ok_bodies": a.extractor_checks,
             "json_parsed_ok": a.json_ok,
             "json_parse_errors_matching_reference": a.json_err,
@@ -194,6 +218,20 @@ Content-Length header); distinctness holds by construction (each tuple of the pr
             "outcome_histogram": a.hist,
             "wall_s": wall_a,
         },
+        "part_a2_histories": {
+            "rule": "all ordered pairs (first, second) over a reduced case set (limits {2,4}; body lengths {0,1,N,N+1,N+2}; frames {one, 1+rest, rest+1, all 1-byte}; End/Error; with/without a Pending after the first frame; Content-Length absent/truthful), `first` run to completion or dropped after 1, 2, 3 polls, both on the same thread; every pair runs on a fresh thread (the pair is the whole call history of that thread); `second` is judged by the oracle of Part A; a violating pair is executed twice",
+            "reduced_case_set": hsty.cases,
+            "pairs": hsty.pairs,
+            "abandoned_first_variants": hsty.abandoned_firsts,
+            "wall_s": wall_h,
+        },
+        "part_b2_request_sequences": {
+            "rule": "every ordered pair (first, second) over all compositions into chunks of the bodies of length 0..=N+2 for one limit (Transfer-Encoding: chunked, no Content-Length, one TCP write per piece), `first` sent completely or abandoned (connection closed after the head and the first chunk); every pair is served by a fresh pavex::server::Server with ONE worker, so the pair is the whole history of the worker thread; `second` is judged by the oracle of Part B",
+            "case_set": b2.cases,
+            "pairs": b2.pairs,
+            "abandoned_first_variants": b2.abandoned_firsts,
+            "wall_s": wall_b2,
+        },
         "part_b": {
             "evaluations": b.evaluations,
             "distinct_nontrivial": b.nontrivial,
@@ -201,6 +239,7 @@ Content-Length header); distinctness holds by construction (each tuple of the pr
             "limit_off_cases": b.disabled_cases,
             "transport_rejects_by_http_stack": b.transport_rejects,
             "transport_retries": b.transport_retries,
+            "history_dependent_verdicts_not_attributed": b.history_dependent_unattributed,
             "outcome_histogram": b.hist,
             "wall_s": wall_b,
         },
@@ -216,7 +255,7 @@ Content-Length header); distinctness holds by construction (each tuple of the pr
         &[
             "hook H1 (verif_extract_with_limit) is a faithful pass-through to the private _extract_with_limit (it is one line)",
             "Part A bodies use Data = bytes::Bytes; other Buf implementations are not enumerated",
-            "Part B: TCP segmentation below the write boundaries and hyper's own re-framing of chunks are not controlled; HTTP/2 framing is not exercised",
+            "Part B: TCP segmentation below the write boundaries and hyper's own re-framing of chunks / DATA frames are not controlled",
             "the http / http-body-util / hyper crates are exercised as linked (versions of /repo/Cargo.lock), not modelled",
             "usize is 64 bit on the verification host",
         ],
